@@ -18,6 +18,24 @@ exit of `mainLoop`; producer steps may precede `run()`; startup may itself be pe
 cases are compared with the life-cycle model (`TwistedModel/Reactor/ThreadQueueLife.lean`, driver op `lrun`).  The oracle
 asks for liveness exactly while `reactor.running` is True — the public attribute, read from the real reactor.
 
+The CALLS themselves are part of the case language (mutation audit M13): a call is a fresh callable object, or one shared
+function with positional and keyword arguments (`args`), or THE SAME call as the thread's neighbouring calls — same function
+object, same arguments (`same`; identical calls cannot be told apart, the k-th run counts as the k-th of them) — or
+`reactor.stop` itself (effect `S`: `reactor.callFromThread(reactor.stop)`); a call may raise `RuntimeError` (`raise`) or an
+exception OUTSIDE the `Exception` hierarchy (`braise`: KeyboardInterrupt, SystemExit, GeneratorExit, asyncio.CancelledError, an
+application's own BaseException subclass).  Producers are NOT the reactor thread: `threadable.isInIOThread()` is False while a
+producer's `callFromThread` executes, True for the reactor.  The reactor thread is an issuer as well ("thread 7"): the body of
+a call may itself do `reactor.callFromThread(...)` (effect `c`), or schedule a `callLater(0, ...)` that does (effect `d`: issued
+behind the drain of the same pass, by a delayed call — the loop must not go to sleep on it); such calls may again have effects.
+They are compared with the model through the driver op `lrunx`, which inserts the two steps of thread 7 where the body / the
+delayed call makes them (`TwistedProps.C13.lrunX_eq_lrun`: that IS a run of the life-cycle model on an ordinary schedule).
+
+`kind: posix` runs the same schedules on the REAL `SelectReactor` / `PollReactor` / `EPollReactor` object (still no OS threads):
+its own `__init__`, the real `PosixReactorBase.installWaker` (waker factory, `_internalReaders`, `addReader`), and the real
+`doIteration` — called with timeout 0 whenever the schedule lets the loop poll while the waker's pipe holds a byte.  If that
+does not make the reactor read its waker, the real loop would have slept through the wake-up: the reactor counts as blocked
+from then on (`lost-wakeup`).  No wall clock is involved.
+
 Tie (b), supporting evidence only: the real select / poll / epoll / asyncio reactors in subprocesses
 with real producer threads, checked against the schedule-independent observables the model predicts
 (each call once, in the reactor thread, per-thread order).  Anything that depends on OS timing
@@ -36,9 +54,11 @@ import select
 import subprocess
 import sys
 import termios
+import time
 
 from twisted.internet._signals import _UnixWaker
 from twisted.internet.base import ReactorBase
+from twisted.python import threadable
 
 # failures of deliberately raising calls are logged by _threadCallHandler: keep them off stderr
 from twisted.logger import globalLogBeginner
@@ -49,7 +69,8 @@ except Exception:
 
 HEADLINE = ("TwistedProps.C13.each_call_runs_exactly_once / per_thread_fifo / no_lost_wakeup; over the reactor's whole run: "
             "each_call_runs_exactly_once_while_running / calls_run_while_shutdown_pending / per_thread_fifo_lifecycle / "
-            "no_lost_wakeup_lifecycle")
+            "no_lost_wakeup_lifecycle; calls issued by the reactor thread itself: lrunX_eq_lrun / per_thread_fifo_reentrant / "
+            "accounting_reentrant / no_lost_wakeup_reentrant")
 RULE = ("schedules of atomic steps (thread t: append | wakeUp; reactor: one shared access of runUntilCurrent/doIteration): "
         "every schedule over {R,0} up to length 9 and over {R,0,1} up to length 6, the (append, j reactor steps, wake) "
         "family from every reactor pc, random interleavings of 1..6 threads (bursts, starving reactor, settle tails), "
@@ -61,8 +82,16 @@ RULE = ("schedules of atomic steps (thread t: append | wakeUp; reactor: one shar
         "followed by a post-stop call, the (stop, append after a steps, wake after j steps) family with four effect assignments, "
         "random interleavings with random effects, producer steps before run(), startup pending on a Deferred (oracle-only), "
         "the same on the asyncio reactor (stop only); real reactors with real threads through stop()/pending/fire; "
-        "distinct = (kind, #threads, final pc, blocked, waker class, appended-during-drain, mid-call thread, settled, "
-        "final phase, Deferred fired, effects used, pre-run steps)")
+        "CALLS: ~25-30% of the random cases each have calls raising outside Exception (KeyboardInterrupt, SystemExit, GeneratorExit, "
+        "CancelledError, own BaseException), runs of identical calls (same function object and arguments), one shared function "
+        "with args+kwargs; 30% of random stops are callFromThread(reactor.stop) itself; 45% of random life-cycle cases have 1..3 "
+        "calls issued by the reactor thread (from a call's body / from a delayed call, chains); every {R,0} schedule up to length 8 "
+        "with identical calls / a BaseException-raising call / callFromThread(reactor.stop) as second call, up to length 7 with "
+        "a call issued from the first call's body and from a delayed call (also after stop()); every {R,0,1} schedule up to 5; "
+        "REAL REACTOR OBJECTS (kind posix: select/poll/epoll, real installWaker + doIteration, deterministic): every {R,0} schedule "
+        "up to length 8, every {R,0,1} up to 5, the (append, j steps, wake) family, 30% of the random base cases; "
+        "distinct = (kind, reactor, call forms, #threads, final pc, blocked, waker class, appended-during-drain, mid-call thread, "
+        "settled, final phase, Deferred fired, effects used, pre-run steps)")
 ASSUMES = [
     "CPython: list.append, len, list-iterator fetch, del l[:n], os.write, os.read are atomic (GIL); the model's steps are these",
     "OS scheduling is an arbitrary interleaving of those steps (every interleaving is covered by the theorems); "
@@ -73,9 +102,16 @@ ASSUMES = [
     "(a call still queued when crash() has run is not run: the reactor no longer runs); the 'startup pending' phase and the "
     "asyncio reactor's exit (asyncio finishes the current batch of handles) are tied by the oracle / real runs only, not modelled",
     "threads finish callFromThread (a thread suspended for ever between append and wakeUp can delay its own call)",
+    "a call issued by the reactor thread (from a call's body or a delayed call) is append + wakeUp with no shared access of the "
+    "reactor in between, i.e. two consecutive steps of one more thread ('thread 7') at that point of the schedule "
+    "(lrunX_eq_lrun); delayed calls with delay 0 scheduled by a thread call run behind the drain of the same pass",
+    "shared variables a future implementation might ADD (a flag read by callFromThread and written by the reactor) get no "
+    "interleaving points of their own: only the queue's and the waker's accesses are hooked",
 ]
 TRUSTED = ["the stub doIteration / stub asyncio loop of harness/corr/C13.py (poll the waker, doRead, return at once when the "
-           "timeout mainLoop passed is not None; FIFO of ready handles + due timers)"]
+           "timeout mainLoop passed is not None; FIFO of ready handles + due timers; SystemExit/KeyboardInterrupt end the loop, "
+           "other exceptions of a handle are swallowed, as asyncio.Handle._run does)",
+           "kind posix: FIONREAD on the waker's pipe decides whether the real doIteration(0) is asked; it must then drain the pipe"]
 MANIFEST = {
     "text": "Lean theorems (TwistedProps/C13.lean) over ALL schedules of atomic steps of any number of producer threads and the "
             "reactor (model of callFromThread/wakeUp/runUntilCurrent drain/doIteration + pipe waker, parametric in pipe capacity, "
@@ -88,7 +124,13 @@ MANIFEST = {
             "and no-lost-wake-up hold in EVERY phase; progress holds for as long as reactor.running is True — in particular calls "
             "issued after stop() while shutdown is pending run exactly once, in order, within mu reactor-only steps, the reactor "
             "still running (calls_run_while_shutdown_pending), an idle-issued call within 5 steps in every running phase; the reactor "
-            "stops running only through a call that fires the Deferred.  The models are run against the real code on every schedule of the tie.",
+            "stops running only through a call that fires the Deferred.  Calls issued by the reactor thread itself (from a call's body, "
+            "from a delayed call) are runs of the same model on an ordinary schedule (lrunX_eq_lrun; per_thread_fifo_reentrant, "
+            "accounting_reentrant, no_lost_wakeup_reentrant).  The models are run against the real code on every schedule of the tie: "
+            "on the real ReactorBase with a stub doIteration, on the real SelectReactor/PollReactor/EPollReactor objects (real "
+            "installWaker and doIteration), on the real AsyncioSelectorReactor with a stub event loop; with calls of every form "
+            "(fresh objects, shared function + args/kwargs, identical calls, reactor.stop itself) raising nothing, RuntimeError, or "
+            "exceptions outside the Exception hierarchy.",
     "note": "PARTIAL by nature: OS scheduling and GIL atomicity are assumed to refine the step relation; doIteration/asyncio loop are stubs "
             "in the deterministic tie; real reactors with real threads give supporting evidence only",
     "technique": "Lean 4 invariant proof over an interleaving step relation + deterministic schedule-driven differential tie on the real "
@@ -130,25 +172,63 @@ def enc_sched(toks):
 # ------------------------------------------------------------------------------------------
 # deterministic harness
 
+RT = 7          # the reactor thread as an issuer of callFromThread calls (from a call's body / from a delayed call)
+
+
+class _HarnessBaseException(BaseException):
+    """an application's own exception outside the `Exception` hierarchy"""
+
+
+def _bexc(key):
+    import asyncio
+    return {"ki": KeyboardInterrupt, "se": SystemExit, "ge": GeneratorExit, "ce": asyncio.CancelledError,
+            "cb": _HarnessBaseException}[key]
+
+
 class _Call:
     def __init__(self, h, t, i, raises, eff=None):
         self.h, self.tag, self.raises, self.eff = h, (t, i), raises, eff
 
     def __call__(self):
-        self.h.ran.append(self.tag)
-        if self.eff == "s":
-            self.h.reactor.stop()              # REAL code; ReactorNotRunning (second stop) is the call's own failure
-        elif self.eff == "f":
-            self.h.D.callback(None)            # the Deferred the 'before shutdown' trigger returned
-        elif self.eff == "g":
-            self.h.G.callback(None)            # the Deferred a 'before startup' trigger returned (oracle-only cases)
-        if self.raises:
+        h = self.h
+        h.ran.append(self.tag)
+        h.in_body += 1
+        try:
+            if self.eff == "s":
+                h.reactor.stop()               # REAL code; ReactorNotRunning (second stop) is the call's own failure
+            elif self.eff == "f":
+                h.D.callback(None)             # the Deferred the 'before shutdown' trigger returned
+            elif self.eff == "g":
+                h.G.callback(None)             # the Deferred a 'before startup' trigger returned (oracle-only cases)
+            elif self.eff == "c":
+                h.reissue()                    # re-entrant: the body itself does reactor.callFromThread(...)
+            elif self.eff == "d":
+                h.reactor.callLater(0, h.reissue)   # ... or a delayed call it schedules does (same pass, after the drain)
+        finally:
+            h.in_body -= 1
+        if self.raises is True:
             raise RuntimeError("call raises (must not disturb the drain)")
+        if self.raises:
+            raise _bexc(self.raises)("call raises outside the Exception hierarchy (must not disturb the drain either)")
 
 
 class _Harness:
-    def __init__(self, tokens, raising=(), eff=None, life=False):
+    def __init__(self, tokens, raising=(), eff=None, life=False, case=None):
+        case = case or {}
         self.eff, self.life, self.D, self.cur_timeout = dict(eff or {}), life, None, None
+        self.braising = dict(case.get("braise") or {})        # "t.i" -> class key: raises a BaseException
+        self.args = bool(case.get("args"))                     # calls are (one shared function, args, kwargs)
+        self.same = collections.defaultdict(list)              # t -> indices of t's calls that are THE SAME call
+        for key in case.get("same") or ():
+            t, i = map(int, key.split("."))
+            self.same[t].append(i)
+        for t in self.same:
+            self.same[t].sort()
+        self.same_runs = collections.Counter()
+        self.direct_stop = sorted(tuple(map(int, k.split("."))) for k, e in self.eff.items() if e == "S")
+        self.direct_runs = 0
+        self.in_body, self.reentrant, self.deaf = 0, False, False
+        self.issuing, self.tagof = None, {}
         self.tokens, self.pos = tokens, 0
         self.exhausted, self.snap = False, None
         self.issued, self.pendingw = collections.Counter(), {}
@@ -173,6 +253,10 @@ class _Harness:
             self.thread_step(tok)
         self.exhausted = True
         self.snap = self.snapshot()
+        # the schedule is over and the observation made: let mainLoop return at the end of the pass in progress whatever
+        # the pass does (a pass that never reaches doIteration — an exception escaping runUntilCurrent — would spin for ever)
+        if hasattr(self.reactor, "_realWaker"):
+            self.reactor._started = False
 
     def thread_step(self, t):
         """One shared access of producer thread t.  callFromThread's accesses (queue append, waker write) do not depend
@@ -187,10 +271,13 @@ class _Harness:
         i = self.issued[t]
         self.issued[t] += 1
         self.current, self.acc = t, []
+        saved = threadable.ioThread
+        threadable.ioThread = -1                 # a producer is NOT the reactor thread (threadable.isInIOThread() is False)
         try:
-            self.reactor.callFromThread(_Call(self, t, i, f"{t}.{i}" in self.raising, self.eff.get(f"{t}.{i}")))  # REAL code
+            self.issue(t, i)                     # REAL callFromThread
         finally:
             self.current = None
+            threadable.ioThread = saved
         acc, self.acc = self.acc, []
         # a call is always two tokens of its thread (append; wake-up), whatever the code under test did: the first
         # access now, everything else (nothing at all, if the code made no second access) at the thread's next token
@@ -198,14 +285,65 @@ class _Harness:
         first()
         self.pendingw[t] = [lambda: [a() for a in rest]]
 
+    def issue(self, t, i):
+        """thread t's i-th call, in the form the case asks for: a fresh callable object; one shared function with
+        positional and keyword arguments; THE SAME call as the thread's other `same` calls (same function, same
+        arguments); `reactor.stop` itself"""
+        key = f"{t}.{i}"
+        raises = True if key in self.raising else self.braising.get(key, False)
+        eff = self.eff.get(key)
+        self.issuing = (t, i)
+        if i in self.same.get(t, ()):
+            self.reactor.callFromThread(self.same_call, t)
+        elif eff == "S":
+            self.reactor.callFromThread(self.reactor.stop)
+        elif self.args:
+            self.reactor.callFromThread(self.entry, t, i, eff=eff, raises=raises)
+        else:
+            self.reactor.callFromThread(_Call(self, t, i, raises, eff))
+
+    def entry(self, t, i, *, eff, raises):
+        _Call(self, t, i, raises, eff)()
+
+    def same_call(self, t):
+        """identical calls cannot be told apart: the k-th run is counted as the k-th of them (the most favourable reading)"""
+        mine = self.same[t]
+        k = self.same_runs[t]
+        self.same_runs[t] += 1
+        self.ran.append((t, mine[min(k, len(mine) - 1)]))       # one run too many shows up as a call that ran twice
+
+    def install_direct_stop(self):
+        """`reactor.callFromThread(reactor.stop)`: the callable IS the reactor's stop (recorded when run as a queued call)"""
+        real_stop, h = self.reactor.stop, self
+
+        def stop():
+            if not h.in_body:
+                k = h.direct_runs
+                h.direct_runs += 1
+                h.ran.append(h.direct_stop[min(k, len(h.direct_stop) - 1)])
+            real_stop()
+        self.reactor.stop = stop
+
+    def reissue(self):
+        """the reactor thread itself issues a call (from the body of a call, or from a delayed call): append and
+        wake-up happen now, in the reactor thread — no other shared access of the reactor lies between"""
+        i = self.issued[RT]
+        self.issued[RT] += 1
+        self.reentrant = True
+        try:
+            self.issue(RT, i)
+        finally:
+            self.reentrant = False
+
     def snapshot(self):
-        q = [e[0].tag for e in list.__iter__(self.queue) if isinstance(e[0], _Call)]
+        # which call a queue entry is was noted when it was appended (a thread's calls may all be the same object)
+        q = [self.tagof.get(id(e), (None, (99, 0)))[1] for e in list.__iter__(self.queue)]
         w = self.waker_count()
         done = self.done if self.pc in ("fetch", "del") else 0
         show = lambda l: ",".join(f"{t}.{i}" for t, i in l) if l else "-"
         pw = sorted(self.pendingw)
         out = (f"ran={show(self.ran)}|queue={show(q)}|waker={w}|pc={self.pc}|done={done}"
-               f"|blocked={1 if self.pc == 'poll' and w == 0 and self.cur_timeout is None else 0}"
+               f"|blocked={1 if self.pc == 'poll' and (w == 0 or self.deaf) and self.cur_timeout is None else 0}"
                f"|pw={','.join(map(str, pw)) if pw else '-'}")
         if self.life:
             r = self.reactor
@@ -255,7 +393,12 @@ class _HookList(list):
             self.phase = "check1"
         return n
 
+    def insert(self, index, item):
+        self.h.tagof[id(item)] = (item, self.h.issuing)
+        list.insert(self, index, item)
+
     def append(self, item):
+        self.h.tagof[id(item)] = (item, self.h.issuing)
         if self.h.current is not None:
             self.h.acc.append(lambda: list.append(self, item))     # a producer's access: performed at its token
         else:
@@ -302,6 +445,8 @@ class _WakerProxy:
                 h.acc.append(self.real.wakeUp)           # a producer's access: performed at its token
             else:
                 self.real.wakeUp()
+        elif h.reentrant:
+            self.real.wakeUp()                           # the reactor thread's own callFromThread
         else:
             h.point("selfwake")                          # `if self.threadCallQueue: self.wakeUp()` in the reactor
             self.real.wakeUp()
@@ -327,6 +472,8 @@ def _fionread(fd):
 
 class _StubReactor(ReactorBase):
     """The real ReactorBase; only installWaker (real pipe waker behind the proxy) and doIteration are supplied."""
+
+    seconds = staticmethod(time.monotonic)      # a delayed call scheduled with delay 0 is due in the same pass
 
     def __init__(self, h, cap):
         self._h, self._cap = h, cap
@@ -364,15 +511,80 @@ class _StubReactor(ReactorBase):
         self._started = False
 
 
+_posix_classes = {}
+
+
+def _posix_class(name):
+    """The REAL select / poll / epoll reactor class: its own `__init__`, the real `PosixReactorBase.installWaker` (waker
+    factory, registration of the waker as a reader), `addReader`, and the real `doIteration` — which is asked, without
+    sleeping, whenever the schedule lets the loop poll while the waker's pipe holds a byte.  If that does not make it read
+    the waker, the real loop would have slept through the wake-up: the reactor is `deaf` and stays blocked."""
+    if name in _posix_classes:
+        return _posix_classes[name]
+    if name == "select":
+        from twisted.internet.selectreactor import SelectReactor as base
+    elif name == "poll":
+        from twisted.internet.pollreactor import PollReactor as base
+    else:
+        from twisted.internet.epollreactor import EPollReactor as base
+
+    class _RealPosix(base):
+        seconds = staticmethod(time.monotonic)
+
+        def __init__(self, h):
+            self._h = h
+            super().__init__()                           # REAL: installWaker() is called from ReactorBase.__init__
+            real = self.waker
+            if real is None or not hasattr(real, "i"):
+                raise RuntimeError("the reactor installed no pipe waker")
+            self._realWaker = real
+            self.waker = _WakerProxy(h, real, True)      # producers' writes are postponed to their token
+
+        def doIteration(self, t):
+            h = self._h
+            h.timeouts.append((t, self.running))
+            h.cur_timeout = t
+            while True:
+                h.point("poll")
+                if h.exhausted:
+                    break
+                n = _fionread(self._realWaker.i)
+                if n and not h.deaf:
+                    h.point("read")
+                    if h.exhausted:
+                        break
+                    base.doIteration(self, 0)            # REAL select/poll/epoll + _doReadOrWrite + waker.doRead
+                    if _fionread(self._realWaker.i) >= n:
+                        h.deaf = True                    # the loop does not watch its waker: from here on it sleeps
+                        continue
+                    return
+                if t is not None:
+                    return
+            self._started = False
+
+        def _harness_close(self):
+            poller = getattr(self, "_poller", None)
+            if poller is not None and hasattr(poller, "close"):
+                poller.close()
+
+    _posix_classes[name] = _RealPosix
+    return _RealPosix
+
+
 def _run_base(c):
     toks = dec_sched(c["sched"])
-    h = _Harness(toks, c.get("raise", ()), c.get("eff"), _is_life(c))
+    h = _Harness(toks, c.get("raise", ()), c.get("eff"), _is_life(c), c)
     h.timeouts = []
-    r = _StubReactor(h, c.get("cap", 65536))
+    if c["kind"] == "posix":
+        r = _posix_class(c["reactor"])(h)
+    else:
+        r = _StubReactor(h, c.get("cap", 65536))
     try:
         h.reactor = r
         h.queue = r.threadCallQueue = _HookList(h)
         h.waker_count = lambda: _fionread(r._realWaker.i)
+        if h.direct_stop:
+            h.install_direct_stop()
         if h.life:
             h.install_life(c.get("fired", 0))
         if c.get("starting"):
@@ -390,6 +602,8 @@ def _run_base(c):
         return h.snap
     finally:
         r._realWaker.connectionLost(None)
+        if c["kind"] == "posix":
+            r._harness_close()
 
 
 # -- asyncio ---------------------------------------------------------------------------------
@@ -403,7 +617,12 @@ class _Handle:
 
     def run(self):
         if not self.cancelled:
-            self.cb(*self.args)
+            try:
+                self.cb(*self.args)
+            except (SystemExit, KeyboardInterrupt):
+                raise                   # asyncio.Handle._run: these end run_forever()
+            except BaseException:
+                pass                    # ... anything else goes to the loop's exception handler and the loop goes on
 
 
 class _FakeLoop:
@@ -411,13 +630,19 @@ class _FakeLoop:
 
     def __init__(self, h):
         self.h, self.ready, self.timers, self.now = h, collections.deque(), [], 100.0
+        self.unwoken = []           # handles scheduled by a foreign thread WITHOUT waking the selector (plain call_soon)
 
     def time(self):
         return self.now
 
     def call_soon(self, cb, *args, context=None):
         hd = _Handle(None, cb, args)
-        self.ready.append(hd)
+        if self.h.current is not None:
+            # not thread-safe: from another thread the handle is queued but the loop's selector is not woken —
+            # it is noticed only when something else wakes the loop
+            self.unwoken.append(hd)
+        else:
+            self.ready.append(hd)
         return hd
 
     def call_soon_threadsafe(self, cb, *args, context=None):
@@ -441,6 +666,9 @@ class _FakeLoop:
         due = [t for t in self.timers if not t.cancelled and t.when <= self.now]
         self.timers = [t for t in self.timers if not t.cancelled and t.when > self.now]
         self.ready.extend(sorted(due, key=lambda t: t.when))
+        if self.ready and self.unwoken:
+            self.ready.extend(self.unwoken)
+            self.unwoken = []
 
     def add_reader(self, fd, cb, *args):
         pass
@@ -475,7 +703,7 @@ def _clock(kind):
 def _run_asyncio(c):
     from twisted.internet.asyncioreactor import AsyncioSelectorReactor
     toks = dec_sched(c["sched"])
-    h = _Harness(toks, c.get("raise", ()), c.get("eff"), _is_life(c))
+    h = _Harness(toks, c.get("raise", ()), c.get("eff"), _is_life(c), c)
     loop = _FakeLoop(h)
     r = AsyncioSelectorReactor(loop)
     real = r.waker
@@ -487,6 +715,8 @@ def _run_asyncio(c):
         h.waker_count = lambda: (len(loop.ready)
                                  + sum(1 for x in loop.timers if not x.cancelled and x.when <= loop.now))
         r.seconds = _clock(c.get("clock", "frozen"))
+        if h.direct_stop:
+            h.install_direct_stop()
         if h.life:
             h.install_life(c.get("fired", 0))
         h.pre_run(c.get("pre", 0))
@@ -725,7 +955,7 @@ def extra_evidence():
 # engine interface
 
 def run_impl(c):
-    if c["kind"] == "base":
+    if c["kind"] in ("base", "posix"):
         return _run_base(c)
     if c["kind"] == "asyncio":
         return _run_asyncio(c)
@@ -739,9 +969,11 @@ def _is_life(c):
     return bool(c.get("life") or c.get("eff") or c.get("fired") or c.get("starting"))
 
 
-def _effs(c):
+def _effs(c, model=False):
+    """effects of the calls' bodies; for the model `S` (the call IS reactor.stop) is `s` (its body does reactor.stop())"""
     e = c.get("eff") or {}
-    return ",".join(f"{k}:{e[k]}" for k in sorted(e, key=lambda k: tuple(map(int, k.split("."))))) if e else "-"
+    show = (lambda v: "s" if v == "S" else v) if model else (lambda v: v)
+    return ",".join(f"{k}:{show(e[k])}" for k in sorted(e, key=lambda k: tuple(map(int, k.split("."))))) if e else "-"
 
 
 def model_line(c):
@@ -749,11 +981,15 @@ def model_line(c):
         return None                 # oracle-only (supporting evidence): real loop, real threads, whole life cycle
     if c.get("starting"):
         return None                 # oracle-only: the 'startup pending' phase (reactor.running False, loop spinning) is not modelled
-    if c["kind"] in ("base", "asyncio") and _is_life(c):
-        cfg = f"{c.get('cap', 65536)} {CHUNK} 1 check1 0" if c["kind"] == "base" else \
+    if c["kind"] in ("base", "posix", "asyncio") and _is_life(c):
+        cfg = f"{c.get('cap', 65536)} {CHUNK} 1 check1 0" if c["kind"] != "asyncio" else \
               f"0 1 0 poll {0 if c.get('clock', 'frozen') == 'back' else 1}"
-        return f"lrun {cfg} {1 if c.get('fired') else 0} {_effs(c)} {c['sched']}"
-    if c["kind"] == "base":
+        # calls issued by the reactor thread itself (effects c, d): the driver runs the model on the equivalent schedule
+        # in which they are two steps of thread 7 right behind the reactor step that ran the issuing call (c) / that
+        # ended the drain of that pass (d) — the reactor makes no shared access in between
+        op = "lrunx" if any(v in ("c", "d") for v in (c.get("eff") or {}).values()) else "lrun"
+        return f"{op} {cfg} {1 if c.get('fired') else 0} {_effs(c, model=True)} {c['sched']}"
+    if c["kind"] in ("base", "posix"):
         return f"run {c.get('cap', 65536)} {CHUNK} 1 check1 {c['sched']}"
     if c["kind"] == "asyncio":
         return f"run 0 1 0 poll {c['sched']}"
@@ -829,10 +1065,23 @@ def oracle(c, out):
         return {"key": "raises", "detail": str(out)}
     ran, queue, waker, pc, blocked = _parse(out)
     toks, issued, mid, tail = _sched_facts(c)
-    where = f"{c['kind']} sched={c['sched']}" + (f" clock={c.get('clock', 'frozen')}" if c["kind"] == "asyncio" else "")
+    # calls the reactor thread issued itself (as "thread 7"): one per call that ran with effect c or d
+    e = c.get("eff") or {}
+    rt_issued = sum(1 for (t, i) in set(ran) if e.get(f"{t}.{i}") in ("c", "d"))
+    if rt_issued:
+        issued[RT] = rt_issued
+    where = (f"{c['kind']}{':' + c['reactor'] if c['kind'] == 'posix' else ''} sched={c['sched']}"
+             + (f" clock={c.get('clock', 'frozen')}" if c["kind"] == "asyncio" else ""))
+    if c.get("raise") or c.get("braise"):
+        where += f" [calls that raise: {sorted(c.get('raise') or [])} RuntimeError, {c.get('braise') or {}} (BaseException classes)]"
+    if c.get("same"):
+        where += f" [calls {sorted(c['same'])}: each thread's are one and the same call (same function object, same arguments)]"
+    if c.get("args"):
+        where += " [calls are one shared function with positional and keyword arguments]"
     if _is_life(c) or c.get("pre"):
         f = dict(kv.split("=", 1) for kv in out.split("|"))
-        where += (f" [calls' bodies: {_effs(c)} (s = reactor.stop(), f = fires the 'before shutdown' Deferred); "
+        where += (f" [calls' bodies: {_effs(c)} (s = reactor.stop(), S = the call IS reactor.stop, f = fires the 'before shutdown' "
+                  f"Deferred, c = the body itself issues a call (thread 7 = the reactor thread), d = a delayed call it schedules does); "
                   f"first {c.get('pre', 0)} producer steps before run(); at the end reactor.running={f.get('running', '1')}, "
                   f"phase={f.get('phase', 'running')}]")
     running = _running(out)          # the property speaks about a reactor that runs: liveness is asked only then
@@ -849,7 +1098,10 @@ def oracle(c, out):
     if blocked and running and len(ran) < n_issued and not mid:
         return {"key": "lost-wakeup", "detail": f"{where}: reactor asleep (reactor.running is True), every callFromThread has returned, "
                                                 f"{n_issued - len(ran)} call(s) not run"}
-    if running and not mid and tail >= settle_len(n_issued) and len(ran) < n_issued:
+    # a call issued by the reactor thread from a call that has just run needs a loop cycle of its own (poll, read, check,
+    # total, fetch, del, check, wake-up): ten more reactor steps for each such effect in the case
+    n_cd = sum(1 for v in e.values() if v in ("c", "d"))
+    if running and not mid and tail >= settle_len(n_issued) + 10 * n_cd and len(ran) < n_issued:
         return {"key": "not-run", "detail": f"{where}: {n_issued - len(ran)} call(s) still not run after {tail} reactor-only steps"}
     return None
 
@@ -865,7 +1117,9 @@ def tag(c, out):
     toks, issued, mid, tail = _sched_facts(c)
     n = sum(issued.values())
     wcls = "0" if waker == 0 else "1" if waker == 1 else "cap" if waker == c.get("cap", 65536) else ">8192" if waker > CHUNK else "2+"
-    return (f"{c['kind']}{':' + c.get('clock', 'frozen') if c['kind'] == 'asyncio' else ''}:{len(issued)}t:pc={pc}:"
+    feats = ("B" if c.get("braise") else "") + ("M" if c.get("same") else "") + ("A" if c.get("args") else "")
+    return (f"{c['kind']}{':' + c.get('clock', 'frozen') if c['kind'] == 'asyncio' else ''}"
+            f"{':' + c['reactor'] if c['kind'] == 'posix' else ''}{':' + feats if feats else ''}:{len(issued)}t:pc={pc}:"
             f"{'blocked' if blocked else 'awake'}:w{wcls}:q{min(len(queue), 3)}:ran{'all' if len(ran) == n else 'some' if ran else '0'}:"
             f"{'mid' if mid else 'ret'}:{'settled' if tail >= settle_len(n) else 'cut'}:{'raise' if c.get('raise') else ''}"
             + _life_tag(c, out))
@@ -887,12 +1141,12 @@ def nontrivial(c, out):
 # ------------------------------------------------------------------------------------------
 # cases
 
-def _settled(toks):
-    """complete every pending callFromThread, then let the reactor run alone"""
+def _settled(toks, extra=0):
+    """complete every pending callFromThread, then let the reactor run alone (`extra` = calls the reactor thread may issue)"""
     cnt = collections.Counter(t for t in toks if t != "R")
     toks = list(toks) + [t for t, k in sorted(cnt.items()) if k % 2]
     n = sum((k + 1) // 2 for k in cnt.values())
-    return toks + ["R"] * settle_len(n)
+    return toks + ["R"] * (settle_len(n) + 12 * extra)     # a call issued from a call needs a loop cycle of its own
 
 
 def _base(toks, **kw):
@@ -909,6 +1163,78 @@ def _life(toks, eff=None, kind="base", **kw):
         c["eff"] = dict(eff)
     if kind == "asyncio":
         c.setdefault("clock", "frozen")
+    return c
+
+
+def _posix(toks, reactor, **kw):
+    return {"kind": "posix", "reactor": reactor, "sched": enc_sched(toks), **kw}
+
+
+def _posix_reactors():
+    return [r for r in _reactors() if r != "asyncio"]
+
+
+_BKEYS = ["ki", "se", "ge", "ce", "cb"]
+
+
+def _calls_corpus():
+    """the forms a call can take and the places it can be issued from (mutation audit M13)"""
+    out = []
+    for r in _posix_reactors():
+        # the real select/poll/epoll reactor object: real installWaker, real doIteration on the real waker
+        out.append(_posix([0, 0] + ["R"] * 12 + [1, 1] + ["R"] * 12, r))
+        out.append(_posix(_settled([0, 0, 1, 1, "R", "R", "R", 2, 0, "R", 2, "R", "R", 0, 1, "R", "R", "R", 1]), r))
+        out.append({**_posix([0, 0] + ["R"] * 12 + [1, 1] + ["R"] * 30, r), "life": 1, "eff": {"0.0": "s"}})
+    for k in _BKEYS:
+        # a call that raises KeyboardInterrupt / SystemExit / GeneratorExit / CancelledError / an application's own
+        # BaseException: logged like any other failure, the drain goes on, nothing runs twice
+        out.append(_base(_settled([0] * 8 + ["R"] * 3 + [1] * 4), braise={"0.1": k}))
+        out.append(_aio(_settled([0] * 8 + ["R"] * 3 + [1] * 4), braise={"0.1": k, "1.0": k}))
+    # one thread issues THE SAME call (same function object, same arguments) several times in a row: each one runs
+    out.append(_base(_settled([0] * 8), same=["0.0", "0.1", "0.2", "0.3"]))
+    out.append(_base(_settled([0] * 4 + ["R"] * 3 + [0] * 4 + [1] * 4), same=["0.1", "0.2", "0.3", "1.0", "1.1"], args=1))
+    out.append(_aio(_settled([0] * 8), same=["0.0", "0.1", "0.2", "0.3"]))
+    out.append(_base(_settled([0, 0, 1, 1, 0, 0, "R", "R", 1, 1]), args=1, **{"raise": ["0.1"]}))
+    # reactor.callFromThread(reactor.stop) behind other calls of the same thread, the queue not yet drained
+    out.append(_life(_settled([0] * 6 + [1] * 2), {"0.2": "S"}))
+    out.append(_life(_settled([0] * 6 + [1] * 2), {"0.1": "S"}, kind="asyncio"))
+    # the reactor thread issues calls itself: from the body of a call (c), from a delayed call (d: the loop must not go
+    # to sleep on it), in chains
+    out.append(_life([0, 0] + ["R"] * 30, {"0.0": "d"}))
+    out.append(_life([0, 0] + ["R"] * 30, {"0.0": "c"}))
+    out.append(_life(_settled([0] * 4 + ["R"] * 9 + [1, 1], 4), {"0.0": "d", "0.1": "c", "7.0": "d", "7.1": "c"}))
+    out.append(_life(_settled([0] * 4 + ["R"] * 9 + [1, 1], 3), {"0.0": "s", "0.1": "d", "7.0": "c", "1.0": "d"}))
+    out.append(_life(_settled([0] * 4, 2), {"0.0": "c", "7.0": "c"}, kind="asyncio", clock="back"))
+    for r in _posix_reactors():
+        out.append({**_posix(_settled([0] * 4 + ["R"] * 9 + [1, 1], 3), r), "life": 1, "eff": {"0.1": "d", "7.0": "c", "1.0": "d"}})
+    return out
+
+
+def _decorate(rng, c, k):
+    """give a random case some of: calls raising outside Exception, identical calls, shared function + arguments,
+    the real select/poll/epoll reactor object instead of the stub"""
+    if rng.random() < 0.25:
+        c["braise"] = {f"{rng.randrange(k)}.{rng.randrange(4)}": rng.choice(_BKEYS) for _ in range(rng.randint(1, 3))}
+    if rng.random() < 0.3:
+        t = rng.randrange(k)
+        a = rng.randrange(3)
+        c["same"] = [f"{t}.{i}" for i in range(a, a + rng.randint(2, 5))]
+        if rng.random() < 0.4:
+            u = rng.randrange(k)
+            c["same"] = sorted(set(c["same"] + [f"{u}.{i}" for i in range(0, 6, rng.choice([1, 2]))]))
+        # a call cannot be both `the same as its neighbour` and special
+        for key in c["same"]:
+            (c.get("eff") or {}).pop(key, None)
+            (c.get("braise") or {}).pop(key, None)
+            if key in (c.get("raise") or ()):
+                c["raise"] = [x for x in c["raise"] if x != key]
+    if rng.random() < 0.3:
+        c["args"] = 1
+    if c["kind"] == "base" and "cap" not in c and rng.random() < 0.3:
+        c["kind"], c["reactor"] = "posix", rng.choice(_posix_reactors())
+    for key in ("braise", "raise", "eff"):
+        if key in c and not c[key]:
+            del c[key]
     return c
 
 
@@ -966,7 +1292,7 @@ def _life_effs(rng, toks, nthreads, fire_ok=True):
 
 
 def corpus():
-    out = _life_corpus() + [
+    out = _life_corpus() + _calls_corpus() + [
         # asyncio reactor, frozen clock (coarse timer / calls within one tick): 4+ calls of one thread ran out of order
         # before the fix (callFromThread went through callLater(0), i.e. an unstable heap keyed by time alone)
         _aio(_settled([0] * 16)),
@@ -1050,9 +1376,30 @@ def generate(rng, tier):
         if rng.random() < 0.15:
             kw["raise"] = [f"{rng.randrange(k)}.{rng.randrange(4)}" for _ in range(2)]
         if i % 3 == 2:
-            yield _aio(toks, clock=rng.choice(["frozen", "frozen", "ticking", "back"]), **kw)
+            yield _decorate(rng, _aio(toks, clock=rng.choice(["frozen", "frozen", "ticking", "back"]), **kw), k)
         else:
-            yield _base(toks, **kw)
+            yield _decorate(rng, _base(toks, **kw), k)
+    # the forms a call can take / the places it is issued from, exhaustively over small schedules
+    prs = _posix_reactors()
+    for n, sch in enumerate(_all_scheds(["R", 0], 8 if quick else 10)):
+        yield _posix(sch, prs[n % len(prs)])
+        if sch.count(0) >= 3:           # at least two calls
+            yield _base(sch, same=[f"0.{i}" for i in range(5)])
+            yield _base(sch, braise={f"0.{n % 2}": _BKEYS[n % 5]})
+            yield _aio(sch, clock="frozen", braise={f"0.{n % 2}": _BKEYS[(n + 1) % 5]}, same=["0.2", "0.3", "0.4"])
+            yield _life(sch, {"0.1": "S"})
+        if len(sch) <= 7:
+            for e in ("c", "d"):
+                yield _life(sch + ["R"] * 9, {"0.0": e})
+                yield _life(sch + ["R"] * 6, {"0.0": "s", "0.1": e, "7.0": "c"})
+    for n, sch in enumerate(_all_scheds(["R", 0, 1], 5 if quick else 7)):
+        yield _posix(sch + ["R"] * 4, prs[n % len(prs)], same=["0.0", "0.1", "1.0", "1.1", "1.2"])
+        if n % 2:
+            yield _life(sch + ["R"] * 7, {"0.0": "d", "1.0": "c"})
+        else:
+            yield _life(sch + ["R"] * 7, {"0.0": "c", "1.0": "c"}, kind="asyncio", clock=("frozen", "ticking", "back")[n % 3])
+    for n, sch in enumerate(_family()):
+        yield _posix(sch, prs[n % len(prs)])
     # the reactor's life cycle: stop() -> shutdown pending on a Deferred -> crash -> exit, calls issued in every phase
     S = {"0.0": "s"}
     for sch in _all_scheds(["R", 0], 9 if quick else 10):
@@ -1084,10 +1431,22 @@ def generate(rng, tier):
         if rng.random() < 0.1:
             kw["raise"] = [f"{rng.randrange(k)}.{rng.randrange(4)}" for _ in range(2)]
         eff = _life_effs(rng, toks, k, fire_ok=not aio)
+        if rng.random() < 0.3:                      # the stop is `callFromThread(reactor.stop)` itself (one thread's only)
+            key = next(x for x, v in eff.items() if v == "s")
+            eff = {x: ("S" if (x == key or (v == "s" and x.split(".")[0] == key.split(".")[0])) else v) for x, v in eff.items()}
+        extra = 0
+        if rng.random() < 0.45:                     # the reactor thread issues calls itself, possibly in chains
+            for _ in range(rng.randint(1, 3)):
+                key = f"{rng.choice(list(range(k)) + [RT])}.{rng.choice([0, 0, 1, 1, 2, 3])}"
+                if key not in eff:
+                    eff[key] = "c" if aio else rng.choice("cd")
+                    extra += 1
+            if extra and toks[-20:] == ["R"] * 20:
+                toks = toks + ["R"] * (12 * extra)
         if aio:
-            yield _life(toks, eff, kind="asyncio", clock=rng.choice(["frozen", "frozen", "ticking", "back"]), **kw)
+            yield _decorate(rng, _life(toks, eff, kind="asyncio", clock=rng.choice(["frozen", "frozen", "ticking", "back"]), **kw), k)
         else:
-            yield _life(toks, eff, **kw)
+            yield _decorate(rng, _life(toks, eff, **kw), k)
     # run() called, startup pending on a Deferred (reactor.running False, the loop spins): oracle-only.  Thread t's call 0
     # completes the startup at most; a stop() comes later in the SAME thread, i.e. after it
     for i in range(120 if quick else 1000):
@@ -1126,7 +1485,7 @@ def shrink(c):
         for a in range(0, len(toks) - size + 1, max(1, size // 2)):
             yield {**c, "sched": enc_sched(toks[:a] + toks[a + size:])}
         size //= 2
-    for key in ("raise", "pre", "fired"):
+    for key in ("raise", "pre", "fired", "braise", "same", "args"):
         if c.get(key):
             yield {k: v for k, v in c.items() if k != key}
     for e in sorted(c.get("eff") or {}):
